@@ -311,6 +311,21 @@ def oracle_c10(c, x):
     return None
 
 
+def sampled(n, step, inclusive):
+    top = n + 1 if inclusive else n
+    return [k for k in range(top) if step <= 1 or k < 48 or k + 48 >= n or k % step == 0]
+
+
+def rle_positions(s, positions):
+    """[(position, code)] of a run-length encoded observation over the sampled positions"""
+    out, i = [], 0
+    for code, cnt in parse_rle(s):
+        for _ in range(cnt):
+            out.append((positions[i] if i < len(positions) else -1, code))
+            i += 1
+    return out
+
+
 def parse_rle(s):
     out = []
     for p in s.split(" "):
@@ -329,22 +344,20 @@ def oracle_c11(c, x):
     if not m:
         return "no truncation observation"
     n = int(st["n"], 16)
-    k = 0
-    for code, cnt in parse_rle(m.group(1)):
+    pos = sampled(n, c.steps.get(x.cid, 1), False)
+    fl = rle_positions(m.group(1), pos)
+    for k, code in fl:
         if code != "ReadError":
             return "full-copy deserialization of the prefix of length %d (of %d) gave %s, required ReadError" % (k, n, code)
-        k += cnt
-    if k != n:
-        return "truncation observation covers %d cut points, expected %d" % (k, n)
-    k = 0
+    if len(fl) != len(pos):
+        return "truncation observation covers %d cut points, expected %d" % (len(fl), len(pos))
     whole_ok = c.iobs.get((x.cid, "eps:0"), "").startswith("OK")
-    for code, cnt in parse_rle(m.group(2)):
+    for k, code in rle_positions(m.group(2), pos):
         if code == "OK":
             return "eps-copy deserialization of the prefix of length %d (of %d) produced a value" % (k, n)
         # when the whole stream deserializes at this address a prefix can only fail for lack of input
         if whole_ok and code not in ("ReadError", "P"):
             return "eps-copy deserialization of the prefix of length %d (of %d) gave %s, required ReadError or a bounds-check panic" % (k, n, code)
-        k += cnt
     return None
 
 
@@ -506,13 +519,13 @@ def oracle_c13(c, x):
     if not d:
         return "no writer-fault observation"
     m = re.match(r"fails=(.*?)  ?flush=", line)
-    k = 0
-    for code, cnt in parse_rle(m.group(1) if m else ""):
+    pos = sampled(n, c.steps.get(x.cid, 1), True)
+    fl = rle_positions(m.group(1) if m else "", pos)
+    for k, code in fl:
         if code != "ok":
             return "writer failing after %d of %d bytes: result/accepted = %s, required WriteError with exactly the first %d bytes accepted" % (k, n, code, k)
-        k += cnt
-    if k != n + 1:
-        return "writer-fault observation covers %d failure positions, expected %d" % (k, n + 1)
+    if len(fl) != len(pos):
+        return "writer-fault observation covers %d failure positions, expected %d" % (len(fl), len(pos))
     if d.get("flush") != "WriteError/p%d" % n:
         return "flush failure gave %s" % d.get("flush")
     for name in ("short1", "short3", "short7intr2", "bigintr3", "file"):
@@ -545,13 +558,13 @@ def oracle_c14(c, x):
             if val != "same":
                 return "fragmented reader '%s' changed the result of full-copy deserialization" % name
     m = re.search(r"fails=(.*)$", line)
-    k = 0
-    for code, cnt in parse_rle(m.group(1) if m else ""):
+    pos = sampled(n, c.steps.get(x.cid, 1), False)
+    fl = rle_positions(m.group(1) if m else "", pos)
+    for k, code in fl:
         if code != "ReadError":
             return "reader failing after %d of %d bytes gave %s, required ReadError" % (k, n, code)
-        k += cnt
-    if k != n:
-        return "reader-fault observation covers %d failure positions, expected %d" % (k, n)
+    if len(fl) != len(pos):
+        return "reader-fault observation covers %d failure positions, expected %d" % (len(fl), len(pos))
     return None
 
 
@@ -629,3 +642,35 @@ def oracle_c18(c, x):
     if top_cur != n:
         return "top-level rows end at %d, the stream has %d bytes" % (top_cur, n)
     return None
+
+
+def oracle_c04(c, x):
+    st = ser_status(c, x)
+    fd = c.iobs.get((x.cid, "feed"), "")
+    if fd and "hdr=n" in fd:
+        return "the hash words in the header are not xxh3-64 of the recorded TypeHash/AlignHash feeds"
+    # documented equivalents share both hashes
+    tw = getattr(x, "twin_of", None)
+    if tw and x.cid in c.hdrs and tw in c.hdrs:
+        if c.hdrs[x.cid][:2] != c.hdrs[tw][:2]:
+            return "a slice reference / iterator wrapper and the corresponding vector do not share both hashes"
+    if st.get("status") != "OK" or x.cid not in c.hdrs:
+        return None
+    th, ah = c.hdrs[x.cid][0], c.hdrs[x.cid][1]
+    known = None
+    for (tidu, kind) in getattr(x, "cross", []):
+        line = c.iobs.get((x.cid, "cross:" + tidu), "")
+        m = re.match(r"full=(\S+) eps=(\S+)", line)
+        if not m:
+            return "no cross-read observation for target %s" % tidu
+        ok = ("E:WrongTypeHash:" + th, "E:WrongAlignHash:" + ah)
+        if m.group(1) in ok and m.group(2) in ok:
+            continue
+        tu = next((y.t for y in c.cases if y.tid == tidu), None)
+        what = "bytes of %s read as %s (near-miss: %s): full-copy %s, eps-copy %s" % (
+            rust_ty(c.U, x.t, "'_"), rust_ty(c.U, tu, "'_") if tu else tidu, kind, m.group(1)[:60], m.group(2)[:60])
+        if kind.startswith("known:"):
+            known = ("known", kind.split(":")[1], what)
+            continue
+        return what + " -- required a type-hash or alignment-hash error"
+    return known
